@@ -143,9 +143,23 @@ def crash_step(c: int, d1: bool, d2: bool, d3: bool, s: int, follow: bool, marke
     return held(_crash_step, locals())
 
 
-def _crash_step(c, d1, d2, d3, s, follow, marked):
+def recrash_step(c: int, c2: int, d1: bool, d2: bool, d3: bool, s: int) -> bool:
+    """
+    pre: core.PARAMS["cmin"] <= c <= core.PARAMS["cmax"] and 0 <= c2 <= core.PARAMS["c2max"] and 1 <= s <= 3
+    pre: core.PARAMS["op"] in ("store", "copy") or s == 1
+    pre: core.PARAMS["op"] == "expunge" or not (d1 or d2 or d3)
+    post: _
+    """
+    return held(_recrash_step, locals())
+
+
+def _recrash_step(c, c2, d1, d2, d3, s):
+    return _crash_step(c, d1, d2, d3, s, False, False, c2=c2)
+
+
+def _crash_step(c, d1, d2, d3, s, follow, marked, c2=None):
     op = core.PARAMS["op"]
-    tag = f"crash_step[{op}]"
+    tag = f"crash_step[{op}]" if c2 is None else f"recrash_step[{op}]"
     keys, uids = [2, 5, 6], [3, 4, 8]
     dels = {k for k, d in zip(keys, (d1, d2, d3)) if d} if op in ("expunge",) else set()
     srv = env.new_world(db="sqlite")
@@ -229,6 +243,10 @@ def _crash_step(c, d1, d2, d3, s, follow, marked):
     if not crashed and acked is not None and acked[1][0] == "exc" and isinstance(acked[1][1], Crash):
         crashed = True
     # -- the process is gone -------------------------------------------------
+    if not crashed:
+        # the operation ran to completion (and was acknowledged) before the process died: what fails now is not
+        # the window inside the operation (for `pack` that window is a recorded finding; this one is not)
+        tag += "+completed"
     effects_used = TREE.effects
     TREE.crash_at = None
     TREE.crashed = False
@@ -240,6 +258,32 @@ def _crash_step(c, d1, d2, d3, s, follow, marked):
     TREE.crash_at = None
     TREE.crashed = False
     srv._conn.crash()
+    if c2 is not None:
+        # -- the recovering process dies as well, after its c2-th durable effect (schema check, resync
+        #    writes of .mh_sequences, commits); only the third process gets to serve clients
+        TREE.clock += 1
+        TREE.crash_at = TREE.effects + c2
+        loopx = SimLoop()
+        try:
+            srvx = env.restart(srv)
+            for nm in ("inbox", "other", "renamed", "fresh/sub"):
+                dd = TREE.dirs.get(TREE.norm("/fake/mail/" + nm))
+                if dd is not None and dd.is_link_to is None and not TREE.crashed:
+                    _activate(srvx, loopx, nm)
+            try:
+                loopx.cancel_all([m.mgmt_task for m in srvx.active_mailboxes.values() if hasattr(m, "mgmt_task")])
+            except BaseException:
+                pass
+        except Crash:
+            pass
+        except Exception as e:
+            if not TREE.crashed:
+                reached()
+                check(False, f"C11/{tag}/restart_failed", exc=repr(e), crash_point=c, second_crash_point=c2, stage="second process")
+        TREE.crash_at = None
+        TREE.crashed = False
+        srv._conn.crash()
+        TREE.clock += 1
     # -- restart ---------------------------------------------------------------
     loop2 = SimLoop()
     try:
@@ -467,5 +511,13 @@ def jobs_crash(tier):
         variants = [(False, False), (True, False), (True, True)] if op in ("append", "expunge", "store", "copy", "pack", "deliver") else [(False, False)]
         for follow, marked in variants:
             js.append({"name": f"crash_step[{op},follow={int(follow)},marked={int(marked)}]", "module": "harness.persist", "fn": "crash_step", "params": {"op": op, "prop": "C11", "cmax": 14 if q else 30, "follow": follow, "marked": marked}, "timeout": T, "per_path": 90, "unblock": UNBLOCK})
+    # a second crash while the restarted process recovers (c2-th durable effect of start-up + first activation)
+    for op in OPS:
+        if op == "pack":  # the first crash inside MH.pack() is the recorded finding; a second crash adds nothing to it
+            continue
+        for c in (range(0, 9) if q else range(0, 15)):
+            if q and op in ("subscribe", "create") and c > 4:
+                continue
+            js.append({"name": f"recrash_step[{op},c={c}]", "module": "harness.persist", "fn": "recrash_step", "params": {"op": op, "prop": "C11", "cmax": c, "cmin": c, "c2max": 8 if q else 16}, "timeout": T, "per_path": 90, "unblock": UNBLOCK})
     js.append({"name": "first_start", "module": "harness.persist", "fn": "first_start", "params": {"prop": "C11"}, "timeout": T, "per_path": 90, "unblock": UNBLOCK})
     return js
